@@ -218,6 +218,15 @@ def r3_commands(ctx, F):
                   bad='process_commands: the history returned by record_msg_out is not written to state.history '
                       'before the next command is processed (or the hook does not read state.history): a step with '
                       'several sends shows every hook call the same stale history and keeps only one of them')
+    if snd and edges:
+        # every Send enters the network: no path from the Send arm to the next command (or the exit) avoids it
+        r = b.reach([e[1] for e in edges], cut_blocks=[snd[0].bb])
+        skipped = (nx is not None and nx.bb in r) or any(x in r for x in b.returns)
+        ctx.check(not skipped, rule, 'every-send-enters-the-network', b,
+                  good='Network::send is on every path of the Send arm',
+                  bad='process_commands: a Command::Send can be processed without the envelope entering the network '
+                      '(Network::send is skipped on some path): what the handler sent depends on something else than '
+                      'the handler - the step is no longer exactly the handler\'s effects')
     if snd:
         ev = b.val(snd[0].args[1])
         oke = ev.kind == 'agg' and ev.key[1].endswith('Envelope') and len(ev.key[3]) == 3 and \
@@ -283,12 +292,13 @@ def r4_slots(ctx, F):
     import roles
     pc = roles.process_commands(F)
     froms = [c for c in pc.calls if is_usize_from_id(c)]
-    okf = len(froms) >= 1 and all(noref(pc.val(c.args[0])).kind == 'arg' for c in froms)
+    own = [c for c in froms if noref(pc.val(c.args[0])).kind == 'arg']     # usize::from(the acting actor's id)
+    okf = len(own) >= 1
     ims = pc.calls_to('IndexMut::index_mut')
     bad = []
     for c in ims:
         iv = noref(pc.val(c.args[1]))
-        if not (iv.kind == 'call' and any(iv.key == f.bb for f in froms)):
+        if not (iv.kind == 'call' and any(iv.key == f.bb for f in own)):
             bad.append(c)
         recv = noref(pc.val(c.args[0]))
         if not (recv.kind == 'arg' and pc.locals[recv.key]['head'].endswith('ActorModelState')):
